@@ -167,6 +167,85 @@ def _task_bundled(task):
     return t
 
 
+def extra_items(tier):
+    """Attribute-coverage families borrowed from other checks: every criteria form and selector combination (C06),
+    every string/binary encoding configuration (C07), every calibrator / enumeration / time configuration (C08),
+    plus a product of optional attributes of time types, parameters and containers."""
+    from mc.checks import c06, c07, c08
+    items = []
+    crits = c06.consumer_criteria(tier)
+    for i in range(0, len(crits), 24):
+        items.append(("c06", (tier, i, min(i + 24, len(crits)))))
+    for ci in range(len(c07.CHARSETS)):
+        items.append(("c07", ("string", ci, tier)))
+    items.append(("c07", ("binary", 0, tier)))
+    nv = len(c08.variants(tier))
+    step = 24
+    stride = 1 if tier != "quick" else 3
+    for i in range(0, nv, step * stride):
+        items.append(("c08", (tier, i, min(i + step, nv))))
+    items.append(("attrs", 0))
+    return items
+
+
+def extra_doc(item):
+    from mc.checks import c06, c07, c08
+    fam, x = item
+    if fam == "c06":
+        crits = c06.consumer_criteria(x[0])[x[1]:x[2]]
+        return c06.consumer_doc(crits), [docs_mod().packet_for(0, b) for b in c06.consumer_packets()[:6]]
+    if fam == "c07":
+        if x[0] == "string":
+            cs, bo = c07.CHARSETS[x[1]]
+            return c07.mk_doc(c07.string_variants(cs, bo, "quick"), 0, "String"), []
+        return c07.mk_doc(c07.binary_variants("quick"), 3, "Binary"), []
+    if fam == "c08":
+        return c08.doc_for(list(range(x[1], x[2])), x[0]), []
+    return attrs_doc(), []
+
+
+def docs_mod():
+    from mc import docs
+    return docs
+
+
+def attrs_doc():
+    """Optional attributes in every presence/absence combination: time types (units, scale, offset, epoch, offsetFrom),
+    parameters (short/long description), containers (abstract, short/long description, with/without criteria)."""
+    import itertools
+    from mc.spec import (Cmp, Container, Doc, IntEnc, FloatEnc, Param, PType, header_entries, header_params, header_ptypes)
+    pts = list(header_ptypes())
+    prs = list(header_params())
+    conts = [Container("CCSDSPacket", header_entries(), abstract=True)]
+    n = 0
+    for kind in ("AbsoluteTime", "RelativeTime"):
+        for unit, scale, offset, epoch, ofrom in itertools.product((None, "s"), (None, 0.25), (None, -3.5), (None, "TAI"), (None, "SRC_SEQ_CTR")):
+            n += 1
+            pts.append(PType(f"TT{n}", kind, IntEnc(16) if n % 2 else FloatEnc(32), unit=unit, scale=scale, offset=offset, epoch=epoch, offset_from=ofrom))
+            prs.append(Param(f"TP{n}", f"TT{n}", short=("short %d" % n) if n % 2 else None, long=("long %d" % n) if n % 3 == 0 else None))
+    k = 0
+    for abstract, short, long_, crit in itertools.product((False, True), (None, "a short one"), (None, "a long\none"),
+                                                          (None, (Cmp("PKT_APID", "==", "7"),), (Cmp("PKT_APID", "==", "8"), Cmp("TYPE", "!=", "1", False)))):
+        k += 1
+        conts.append(Container(f"K{k}", (("p", f"TP{k}"), ("p", f"TP{k + 30}")), base="CCSDSPacket", criteria=crit, abstract=abstract,
+                               short=short, long=long_))
+    return Doc(tuple(pts), tuple(prs), tuple(conts))
+
+
+def _task_extra(task):
+    t = Tally()
+    for item in task["items"]:
+        case = {"family": "extra", "item": item}
+        try:
+            with case_alarm(300):
+                doc, pkts = extra_doc(item)
+                check_spec(t, doc, pkts, case)
+        except BaseException as e:  # noqa: BLE001
+            t.violation({"kind": "check-aborted", "exc": type(e).__name__}, case, observed=repr(e)[:300])
+        t.outcomes["extra:" + item[0]] += 1
+    return t
+
+
 def plan_palette(tier):
     n = len(c01.pal())
     docs_ = [((a,), s) for a in range(n) for s in (1, 2)]
@@ -187,13 +266,16 @@ def run(ctx):
     if ctx.quick:
         specs = specs[::3]
     tally.merge(fan_out(_task_trees, [{"specs": ch} for ch in chunked(specs, 96)], jobs=ctx.jobs, seed=ctx.seed))
+    extra = extra_items(ctx.tier)
+    tally.merge(fan_out(_task_extra, [{"items": [it]} for it in extra], jobs=ctx.jobs, seed=ctx.seed))
     tally.merge(fan_out(_task_bundled, [{"item": it, "npkts": 40 if ctx.quick else 400} for it in BUNDLED], jobs=ctx.jobs, mem_gib=None))
     coverage = {
         "programs": tally.programs,
         "exhaustive": True,
         "bound": (f"{len(docs_)} palette documents (each of {len(c01.pal())} field kinds alone in 2 shapes; every ordered pair in "
                   f"{'one rotating shape' if ctx.quick else 'all 3 shapes'}), {len(specs)} container-tree documents (<= 3 containers, C05 family), "
-                  f"{len(BUNDLED)} bundled documents; each built from XML and from objects (bundled: XML only); packets: pattern family per document / "
+                  f"{len(extra)} attribute-coverage documents (every criteria form and selector combination, every string/binary encoding configuration, every "
+                  f"calibrator/enumeration/time configuration, optional-attribute products), {len(BUNDLED)} bundled documents; each built from XML and from objects (bundled: XML only); packets: pattern family per document / "
                   "APID x SEL product / first recorded packets of the mission files"),
         "rule": ("one evaluation = one canonical comparison or one packet decoded under D and under load(write(D)); distinct non-trivial = distinct documents"),
     }
@@ -211,6 +293,10 @@ def replay(case):
         spec["parents"] = tuple(spec["parents"])
         spec["crits"] = tuple(spec["crits"])
         t = _task_trees({"specs": [spec]})
+    elif case.get("family") == "extra":
+        item = case["item"]
+        item = (item[0], tuple(item[1]) if isinstance(item[1], list) else item[1])
+        t = _task_extra({"items": [item]})
     elif case.get("family") == "bundled":
         item = next(b for b in BUNDLED if b[0] == case["path"])
         t = _task_bundled({"item": item, "npkts": 400})
